@@ -15,6 +15,8 @@ Theorems about `Vgi.RespHeaders` (the model the driver executes).
 * `expose_covers` — for every configuration (all flags, caps, proxy header lists, echo-name lists):
   every capability, rejection and per-outcome header the configuration can emit is in the expose
   list.
+* `expose_covers_history`, `response_headers_history` — the same after any history of reconfigurations
+  between requests (the model is memoryless: the configuration in force decides).
 * `generated_facts_ok` — decided on the facts regenerated from the source: nobody else writes the
   protected headers; ServeHTTP sets the request id before anything can answer, the capability
   headers right after the hook, CORS before the 413 exit and the mux; every audited header name the
@@ -334,5 +336,50 @@ def cfgMin : Cfg :=
     compression := false, hookFails := false, pkce := false }
 
 example : (capabilityHeaders cfgMin) = [(hSupportedEncodings, ""), (hExternalization, "false")] := by decide
+
+/-! ## configuration histories
+
+Setters may be called between requests. The model has no memory: a response is a function of the
+configuration in force when it is produced (`serveHeaders cfg …`), so the statements above hold at
+every point of every history of reconfigurations — in particular nothing rendered for an earlier
+configuration (a memoised expose list, say) may be served later. The harness checks exactly that
+against the code with `recfg` lines. -/
+
+/-- the configuration after a history of setter calls (each an arbitrary `Cfg → Cfg`) -/
+def cfgAfter (c0 : Cfg) (hist : List (Cfg → Cfg)) : Cfg := hist.foldl (fun c f => f c) c0
+
+/-- **Expose covers, over histories**: after any sequence of reconfigurations, every header the
+configuration then in force can emit is in the expose list computed for that configuration. -/
+theorem expose_covers_history (c0 : Cfg) (hist : List (Cfg → Cfg)) (n : String)
+    (hn : n ∈ (capabilityHeaders (cfgAfter c0 hist)).map (·.1) ∨ n ∈ rejectionHeaders (cfgAfter c0 hist) ∨
+      n ∈ outcomeHeaders (cfgAfter c0 hist) ∨ n = hRequestID) :
+    n ∈ exposeList (cfgAfter c0 hist) :=
+  expose_covers (cfgAfter c0 hist) n hn
+
+/-- … and the response produced then carries that list, the request id and the two mandatory
+capability headers (every exit, any later package writes). -/
+theorem response_headers_history (F : Facts) (hF : FactsOK F) (c0 : Cfg) (hist : List (Cfg → Cfg))
+    (hhook : (cfgAfter c0 hist).hookFails = false) (req : Req) (rnd : List UInt8) (ops : List HdrOp)
+    (hops : LaterWrites F ops) :
+    let cfg := cfgAfter c0 hist
+    hget (serveHeaders cfg req rnd ops) hRequestID = some (String.ofList (resolveRequestID req.requestID rnd)) ∧
+    hget (serveHeaders cfg req rnd ops) hSupportedEncodings = some (supportedEncodingsValue cfg) ∧
+    hget (serveHeaders cfg req rnd ops) hExternalization = some (if cfg.externalStorage then "true" else "false") ∧
+    (cfg.cors = true → exitOf cfg req ≠ .tokenPreflight →
+      hget (serveHeaders cfg req rnd ops) hExpose = some (", ".intercalate (exposeList cfg))) := by
+  intro cfg
+  have h1 := request_id_on_every_exit F hF cfg req rnd ops hops
+  have h2 := capabilities_after_hook F hF cfg hhook req rnd ops hops
+  refine ⟨h1, h2.1, h2.2, ?_⟩
+  intro hc ht
+  have hex : exitOf cfg req ≠ .hookFailed := by
+    unfold exitOf; rw [hhook]; simp only [Bool.false_eq_true, if_false]
+    split <;> (try split) <;> intro h <;> cases h
+  exact expose_on_cors_responses F hF cfg hc req rnd ops hops hex ht
+
+/-- non-vacuity: switching the proof advertisement on after a first configuration changes the list -/
+example : (exposeList (cfgAfter cfgMin [fun c => { c with cors := true }, fun c => { c with proofRequired := true }])).contains
+    hProofRequired = true ∧ (exposeList (cfgAfter cfgMin [fun c => { c with cors := true }])).contains hProofRequired = false := by
+  decide
 
 end Vgi.Props.C20
